@@ -34,6 +34,11 @@ impl InputVariant {
         }
     }
 
+    /// The fields declared in the variant's body.
+    pub(crate) fn fields(&self) -> impl Iterator<Item = &InputField> {
+        self.data.iter()
+    }
+
     pub fn from_variant(v: &syn::Variant, parent: Option<&Core>) -> Result<Self> {
         let mut starter = (InputVariant {
             ident: v.ident.clone(),
